@@ -32,13 +32,25 @@ def with_clock(fen, hmc):
     t = fen.split(); t[4] = str(hmc); return " ".join(t)
 
 
-def prior_session(rng, fens, n_go, probe_fens=()):
+def prior_session(rng, fens, n_go, probe_fens=(), block_first=False):
     """list of UCI commands forming a prior session with exactly n_go searches, every changed option reverted at the end"""
     cmds, revert = [], {}
     defaults = {"MultiPV": 1, "UseNullMove": "true", "Contempt": 0, "UCI_AnalyseMode": "false", "Hash": 8, "Strength": 1000, "Threads": 1, "AnalysisAgeHash": "true"}
+    changed = {"MultiPV": [2, 3], "UseNullMove": ["false"], "Contempt": [-50, 30, 40], "UCI_AnalyseMode": ["true"], "Hash": [1, 16], "Threads": [2], "AnalysisAgeHash": ["false"]}
     done = 0
     while done < n_go:
         x = rng.random()
+        if (x < 0.07 or (block_first and not cmds)) and probe_fens:
+            # option block: a combination of options, optionally a clear, some searches on the probe's own boards under that
+            # combination (analysis searches that do not age the table, contempt that enters cached values, ...), then everything reverted
+            ks = ["AnalysisAgeHash", "UCI_AnalyseMode"] if (block_first and not cmds) or rng.random() < 0.4 else rng.sample(list(changed), rng.randrange(1, 4))
+            for k in ks: cmds.append(("cmd", f"setoption name {k} value {rng.choice(changed[k])}"))
+            if rng.random() < 0.7: cmds.append(("cmd", rng.choice(["setoption name Clear Hash", "ucinewgame"])))
+            for _ in range(rng.randrange(1, 4)):
+                f = rng.choice(probe_fens)
+                cmds.append(("go", f, rng.choice(["go depth 6", "go depth 7", "go nodes 60000", "go infinite"]))); done += 1
+            for k in ks: cmds.append(("cmd", f"setoption name {k} value {defaults[k]}"))
+            continue
         if x < 0.08:
             cmds.append(("cmd", "ucinewgame"))
         elif x < 0.2:
@@ -69,6 +81,7 @@ def prior_session(rng, fens, n_go, probe_fens=()):
 
 def run_session(args):
     prior, probes = args
+    probe_set = {p[0] for p in probes}
     eng = uci.Engine("plain", "material", 1)
     res = {"probes": [], "error": None}
     try:
@@ -78,7 +91,7 @@ def run_session(args):
             if c[0] == "cmd":
                 eng.send(c[1])
             else:
-                eng.go(f"position fen {c[1]}", c[2], timeout=120, stop_after=(0.6 if c[1] in TB_ROOTS else 0.02) if "infinite" in c[2] else None)
+                eng.go(f"position fen {c[1]}", c[2], timeout=120, stop_after=(0.6 if c[1] in TB_ROOTS else 0.3 if c[1] in probe_set else 0.02) if "infinite" in c[2] else None)
         if prior:
             eng.send("setoption name Clear Hash")
         eng.isready()
@@ -120,7 +133,7 @@ def run(ctx):
     # one heavy probe: enough nodes for the replacement scheme (hence the used table size / index mapping) to matter at Hash 8
     probes.append((r.choice(chessgen.SEED_FENS[1:11]), f"go nodes {400000 if quick else 1500000}"))
     nfresh = 2 * len(probes)          # every probe twice, each in its own freshly started process
-    jobs = [([], [p]) for p in probes for _ in range(2)] + [(prior_session(r, fens, n, [p[0] for p in probes]), probes) for n in lengths]
+    jobs = [([], [p]) for p in probes for _ in range(2)] + [(prior_session(r, fens, n, [p[0] for p in probes], block_first=(i % 3 == 1)), probes) for i, n in enumerate(lengths)]
     with cf.ThreadPoolExecutor(max(2, vlib.NCPU // 2)) as ex:
         res = list(ex.map(run_session, jobs))
     err = next((x["error"] for x in res[:nfresh] if x["error"]), None)
